@@ -232,6 +232,7 @@ void run_export_case(const json& c, const std::string& workdir, std::vector<json
         e["i"] = i; e["op"] = "destroy";
         e["blocks_before"] = x->get_blocks_written_count();
         e["items_before"] = x->get_block_item_count();
+        e["fill"] = Access::enc_fill(Access::exp_encoder(*x));
         delete x;
         e["closed"] = snapshot(cur);
         log.push_back(e);
